@@ -1331,3 +1331,118 @@ def search(tier, rng):
             if len(found) >= 3:
                 break
     return found
+
+
+# ================================================= ADDITION (tables with failed measurements) =========================
+# A calibration table whose sensitivity is NaN at an INTERIOR point (a sweep in which one frequency could not be
+# measured).  The property: the table is reproduced at its points (so the failed point answers non-finite), and any request
+# that cannot be answered from calibrated data - here both segments touching the failed point, and any band containing it -
+# yields NaN or an error, never a finite level.  Segments between finite neighbours interpolate as usual.  Oracle only:
+# the Q-valued interpolation model (Calib/Interp.v) has finite tables.
+_cases0, _impl0, _term0, _oracle0, _nontrivial0 = cases, _impl, term, oracle, nontrivial
+_distribution0 = distribution
+
+RULE += (' (failed measurements) interpolated / point tables with a NaN sensitivity at an interior point: non-finite '
+         'or an error at that point, in both adjacent segments and for every band containing it; ordinary interpolation elsewhere.')
+
+
+def _nantable_case(rng):
+    n = rng.randint(4, 7)
+    fs = sorted(rng.sample([125.0, 250.0, 500.0, 1000.0, 2000.0, 4000.0, 8000.0, 16000.0], n))
+    ss = [round(rng.uniform(60, 120), 2) for _ in fs]
+    return {'kind': 'nantable', 'cls': rng.choice(['interp', 'interp', 'point']), 'freqs': fs, 'sens': ss,
+            'bad': rng.randint(1, n - 2), 'badval': 'nan',
+            'g': rng.choice([0.0, 6.0, -12.5]), 'form': rng.choice(['list', 'array'])}
+
+
+def _nantable_impl(case):
+    C = _cal()
+    ss = list(case['sens'])
+    ss[case['bad']] = float(case['badval'])
+    fs = case['freqs']
+    if case['form'] == 'array':
+        fs, ss = np.array(fs), np.array(ss)
+    cls = C.InterpCalibration if case['cls'] == 'interp' else C.PointCalibration
+    cal = cls(fs, ss, fixed_gain=case['g'])
+    f, b = case['freqs'], case['bad']
+    qs = [('bad', f[b])]
+    if case['cls'] == 'interp':
+        qs += [('adj', (f[b - 1] + f[b]) / 2), ('adj', (f[b] + f[b + 1]) / 2), ('adj', float(np.nextafter(f[b], 0))),
+               ('adj', float(np.nextafter(f[b - 1], np.inf)))]
+        for i in range(len(f) - 1):
+            if i not in (b - 1, b):
+                qs.append(('good', (f[i] + f[i + 1]) / 2))
+    qs += [('good', x) for i, x in enumerate(f) if i != b]
+    out = []
+    for kind, q in qs:
+        r = {'kind': kind, 'q': q}
+        for name, fn in (('sens', lambda: cal.get_sens(q)), ('sf', lambda: cal.get_sf(q, 80.0)), ('db', lambda: cal.get_db(q, 1.0))):
+            try:
+                r[name] = float(fn())
+            except Exception as e:
+                r[name] = 'raised ' + type(e).__name__
+        out.append(r)
+    bands = []
+    if case['cls'] == 'interp':
+        for lo, hi in ((f[b - 1], f[b + 1]), (f[b], f[b] + 1), (f[b] - 2, f[b])):
+            try:
+                bands.append(float(cal.get_mean_sf(lo, hi, 80.0)))
+            except Exception as e:
+                bands.append('raised ' + type(e).__name__)
+    return {'q': out, 'bands': bands}
+
+
+def _nantable_oracle(case, res):
+    f, s, b, g = case['freqs'], case['sens'], case['bad'], case['g']
+
+    def silent(v):
+        return not isinstance(v, str) and math.isfinite(v)
+    for r in res['q']:
+        if r['kind'] in ('bad', 'adj'):
+            for name in ('sens', 'sf', 'db'):
+                if silent(r[name]):
+                    where = 'at the failed table point' if r['kind'] == 'bad' else 'in a segment touching the failed point'
+                    return (f'{case["cls"]} table {f} with sensitivity {case["badval"]} at {f[b]} Hz: get_{name}({r["q"]}) = {r[name]} '
+                            f'{where} - a finite level although that range is not calibrated')
+        else:
+            pts = sorted(zip(f, s))
+            want = None
+            for (x0, y0), (x1, y1) in zip(pts, pts[1:]):
+                if x0 <= r['q'] <= x1:
+                    want = y0 + (y1 - y0) * (r['q'] - x0) / (x1 - x0) - g
+            if not silent(r['sens']) or abs(r['sens'] - want) > 1e-9:
+                return f'{case["cls"]} table {f}: get_sens({r["q"]}) = {r["sens"]} between finite neighbours, expected {want}'
+    for v in res['bands']:
+        if silent(v):
+            return f'interp table {f} with sensitivity {case["badval"]} at {f[b]} Hz: get_mean_sf over a band containing it = {v}'
+    return None
+
+
+def cases(tier, rng):
+    yield from _cases0(tier, rng)
+    for _ in range(24 if tier == 'quick' else 400):
+        yield _nantable_case(rng)
+
+
+def _impl(case):
+    return _nantable_impl(case) if case['kind'] == 'nantable' else _impl0(case)
+
+
+def term(case, res):
+    return 'true' if case['kind'] == 'nantable' else _term0(case, res)
+
+
+def oracle(case, res):
+    return _nantable_oracle(case, res) if case['kind'] == 'nantable' else _oracle0(case, res)
+
+
+def nontrivial(case, res):
+    return True if case['kind'] == 'nantable' else _nontrivial0(case, res)
+
+
+def distribution(cases_, results):
+    keep = [i for i, c in enumerate(cases_) if c['kind'] != 'nantable']
+    d = _distribution0([cases_[i] for i in keep], [results[i] for i in keep])
+    d['tables with a failed measurement'] = len(cases_) - len(keep)
+    return d
+# ================================================= end of the addition ================================================
